@@ -223,7 +223,7 @@ func (c *checker) allQER(thorough bool) {
 // ---- URR ----------------------------------------------------------------------------------------------
 
 type volSpec struct {
-	flags uint8
+	flags   uint8
 	t, u, d uint64
 }
 
